@@ -33,3 +33,24 @@ CHECKS = {
     "C12": {"batches": [seq("C12")], "rule": SEQ_RULE},
     "C05": {"batches": [seq("C05")], "rule": SEQ_RULE},
 }
+
+# properties whose checks are registered in MANIFEST.json (clean on the unchanged tree)
+REGISTERED = []
+
+PURE = "pure function of its inputs: no task, timer, storage call, clock, fault or second party for a scheduler or fault injector to decide (DESIGN.md section 6)"
+NOT_APPLICABLE = {
+    "C21": "Row-id mask algebra and index-result combination: " + PURE,
+    "C25": "File round trip is a pure function of (data, writer config, read request); its schedule-dependent part (range coalescing under any completion order) is decided under C30",
+    "C26": "Compression codecs: " + PURE,
+    "C27": "Rep/def level conversion: " + PURE,
+    "C28": "FSST / FastLanes kernels: " + PURE,
+    "C29": "Whether a zone/page is pruned is a pure function of recorded statistics and the predicate",
+    "C32": "Metadata encode/decode: " + PURE,
+    "C34": "Row-id sequence and index operations: " + PURE,
+    "C35": "Distance kernels: pure numeric functions",
+    "C40": "Arrow helper transformations: " + PURE,
+    "C43": "Schema/projection algebra: " + PURE,
+}
+# claimed in DESIGN.md but the check is not registered (yet): listed so MANIFEST stays complete
+NOT_CLAIMED_YET = {p: "check not registered yet: machinery under construction (see DESIGN.md build order)" for p in
+                   ["C%02d" % i for i in range(1, 44)] if p not in NOT_APPLICABLE}
